@@ -210,7 +210,7 @@ impl Session {
                     .with(|p| p.borrow_mut().take())
                     .unwrap_or_else(|| "<unknown>".into());
                 let mut f = Fields::new();
-                f.kv("panic", msg.replace(' ', "_"));
+                f.kv("panic", msg.replace(' ', "_").replace(['\n', '\r', '\t'], "|"));
                 // in-place operations keep the caller's buffer in `scratch`
                 if args.s("api") == "inplace" {
                     f.kv("buf", out(&self.scratch));
